@@ -262,7 +262,14 @@ pub fn c11(tier: &str, seed: u64, meta: &str) -> Report {
                     4 => UacEdit::Raw(b"{\"jhal\": \"jha".to_vec()), // cut off in the middle of a save: an empty list for a new context
                     _ => UacEdit::Write(vec![]),
                 };
+                // now and then the edit is met by an update that has the candidate list off, and the list is switched on by a
+                // second update without a further edit (the edit has to be honoured then, not marked as seen and dropped)
+                if rng.chance(1, 4) && !matches!(edit, UacEdit::Keep) {
+                    feed(w, &mut s, &[SEv::Update([0u32, 1, 8][rng.below(3)], edit)], rep, "C11");
+                    SEv::Update([2u32, 3, 10, 11][rng.below(4)], UacEdit::Keep)
+                } else {
                 SEv::Update([2u32, 3, 10, 11, 6, 0][rng.below(6)], edit)
+                }
             }
             2 if rng.chance(1, 2) => {
                 // a round trip: phonetic -> fixed, the user's auto-correct file edited while the fixed layout is active,
